@@ -16,6 +16,7 @@ pub struct ExSeekFrom(std::io::SeekFrom);
 pub struct ExErrorKind(std::io::ErrorKind);
 
 pub assume_specification[<std::io::Error as From<std::io::ErrorKind>>::from](k: std::io::ErrorKind) -> std::io::Error;
+pub assume_specification[std::io::Error::kind](e: &std::io::Error) -> std::io::ErrorKind;
 
 /// positional write: overwrite/extend `s` at `p` with `b` (a gap is zero filled)
 pub open spec fn splice(s: Seq<u8>, p: nat, b: Seq<u8>) -> Seq<u8> {
@@ -116,6 +117,16 @@ pub trait ExSeek {
                 SeekFrom::Current(d) => true,
             },
             r is Err ==> (*final(self)).sfail() == (*old(self)).sfail() + 1 && (*final(self)).spos() == (*old(self)).spos();
+
+    fn stream_position(&mut self) -> (r: Result<u64, std::io::Error>)
+        ensures
+            (*final(self)).slen() == (*old(self)).slen(),
+            (*final(self)).scontent() == (*old(self)).scontent(),
+            (*final(self)).sreliable() == (*old(self)).sreliable(),
+            (*final(self)).spos() == (*old(self)).spos(),
+            (*final(self)).sops() == (*old(self)).sops() + 1,
+            r is Ok ==> (*final(self)).sfail() == (*old(self)).sfail() && r->Ok_0 == (*old(self)).spos(),
+            r is Err ==> (*final(self)).sfail() == (*old(self)).sfail() + 1;
 }
 
 // A6: `for x in s` with `s: &mut [T]` desugars to `<&mut [T] as IntoIterator>::into_iter(s)`, which is
